@@ -250,6 +250,7 @@ func (pc *ProviderCache) Len() int {
 
 // Refresh initiates an immediate cache refresh.
 func (pc *ProviderCache) Refresh(ctx context.Context) error {
+	verifhook.Point("pcache.lock", "refresh")
 	select {
 	case pc.writeLock <- struct{}{}:
 	default:
@@ -426,6 +427,7 @@ func (pc *ProviderCache) loadReadOnly() readOnly {
 // from the cache. If that information cannot be fetched, then a negative cache
 // entry is created.
 func (pc *ProviderCache) fetchMissing(ctx context.Context, pid peer.ID) (*readProviderInfo, error) {
+	verifhook.Point("pcache.lock", "miss")
 	select {
 	case pc.writeLock <- struct{}{}:
 	case <-ctx.Done():
